@@ -1,18 +1,46 @@
 (* C02 -- value encodings are byte-exact with Cassandra's type serializers.
    Specification: Model/CassandraSpecInt.v, Model/CassandraSpec.v (independent transcription).  Model: Model/CqlCodec.v,
-   Model/MarshalModel.v.  PARTIAL: the theorems below cover the building blocks and the scalar types; the lifting of
-   byte-exactness through arbitrary type trees (to_binary = Some (spec_enc ..)), varint = BigInteger.toByteArray and
-   vint = VIntCoding are NOT proved yet (see C02_full_statement) -- on every run the driver's bytes are compared with
-   spec_result evaluated in Coq on generated nested values instead (checks/C02.py). *)
+   Model/MarshalModel.v; the marshal part of the model is proved equal to Gallina regenerated from cassandra/marshal.py
+   (C02_bridge_source_eq_model below), the type-directed part is tied by correspondence (checks/C02.py).
+   C02_full: to_binary = spec_result for EVERY type tree, protocol version and kind-correct value (exact bytes on the
+   values that have an encoding, refused otherwise), by induction over types (Proofs/C02_exact.v). *)
 From Coq Require Import ZArith List Bool.
 From Verif Require Import PyBase MarshalModel Utf8Model CqlType CqlCodec CassandraSpecInt CassandraSpec
-  Marshal_proofs Vint_proofs C01_proofs C02_proofs.
+  Marshal_proofs Vint_proofs C01_proofs C02_proofs C02_exact.
 Import ListNotations.
 Local Open Scope Z_scope.
 
-(* the full statement, kept visible: exact on every value that has an encoding, refused otherwise *)
+(* the full statement: exact on every value that has an encoding, refused otherwise *)
 Definition C02_full_statement : Prop :=
   forall pv t v, kind t v = true -> v <> VNull -> to_binary pv t v = spec_result pv t v.
+
+Theorem C02_full : C02_full_statement.
+Proof. exact full_statement. Qed.
+Print Assumptions C02_full.
+
+(* the two halves, as the property states them *)
+Theorem C02_exact : forall pv t v, kind t v = true -> v <> VNull -> in_range pv t v = true ->
+  to_binary pv t v = Some (spec_enc pv t v).
+Proof. intros pv t v K N R. rewrite (full_statement pv t v K N). unfold spec_result. rewrite R. reflexivity. Qed.
+Print Assumptions C02_exact.
+
+Theorem C02_rejects : forall pv t v, kind t v = true -> v <> VNull -> in_range pv t v = false ->
+  to_binary pv t v = None.
+Proof. intros pv t v K N R. rewrite (full_statement pv t v K N). unfold spec_result. rewrite R. reflexivity. Qed.
+Print Assumptions C02_rejects.
+
+(* any encoding Cassandra produces decodes to the value Cassandra means by it *)
+Theorem C02_decodes_spec_image : forall pv t v,
+  wf_type t = true -> kind t v = true -> in_range pv t v = true -> py_repr t v = true -> v <> VNull ->
+  from_binary pv t (spec_enc pv t v) = Some (norm t v).
+Proof. exact decodes_spec_image. Qed.
+Print Assumptions C02_decodes_spec_image.
+
+(* every scalar, varint / decimal / duration included (BigInteger.toByteArray, VIntCoding through the bridge) *)
+Theorem C02_scalar_exact : forall s v, kind_scalar s v = true ->
+  ser_scalar s v = if range_scalar s v then Some (spec_scalar s v) else None.
+Proof. exact scalar_exact_all. Qed.
+Print Assumptions C02_scalar_exact.
 
 (* struct-packed integers: big-endian two's complement exactly on the type's range, refused (struct.error) outside *)
 Theorem C02_fixed_width_exact : forall n signed z,
